@@ -12,8 +12,9 @@ the same transactions presented in another transaction order, another posting
 order inside transactions, and cut into 1-4 included files in nested directories;
 `bal --flat --empty` balances (own and family, exact, per base commodity) must be
 identical, the `reg --sort date --empty` rows must form the same multiset per date
-with the same running total at each date boundary, and every commodity must
-print a sample amount with the same precision and style.
+with the same running total at each date boundary, every commodity must
+print a sample amount with the same precision and style, and every account's
+printed own amount and total (and the precision counters behind them) must be identical.
 """
 import os, re, json, shutil, tempfile, itertools, random, hashlib
 from fractions import Fraction
@@ -35,7 +36,7 @@ MANIFEST = dict(
          "points, not violations): styleConsistent (amount parsing consults the commodity's DECIMAL_COMMA flag, amount.cc "
          "1107-1172: `1,5 EUR` then `1.000 EUR` vs the reverse) and exactlyBalanced (acceptance tests the balance at the display "
          "precision learned so far, xact.cc 377 / amount.cc 832-865). Commodities are base symbols (lot annotations from costs "
-         "are not modelled); the internal precision counter of amounts is not compared. Known finding: a cancelled commodity kept "
+         "are not modelled). Displayed balances are compared too: the printed own amount and total of every account and the precision counters behind them (what an amount without commodity is displayed with) must be identical across all presentations, and the model carries the counter of accumulated balances (C08.balance_prec_is_max, C08.load_perm_prec). Known finding: a cancelled commodity kept "
          "as a zero entry by balance += yields a posting-order dependent zero-amount generated row (C08:zero-row:balance-keeps-zero-entry, "
          "same root cause as C03:zero-entry-balance).",
     technique="Lean 4 proof of permutation/flattening invariance + regenerated pinned source + differential model/binary check with paired-run oracle",
@@ -199,7 +200,8 @@ def cut_layout(rng, order, k, style=None, cuts=None):
 # ---------------------------------------------------------------------------
 # observing the binary
 
-BAL_FMT = "%(account)|%(verif_rational(amount))|%(verif_rational(total))\n"
+BAL_FMT = ("%(account)|%(verif_rational(amount))|%(verif_rational(total))|"
+           "%(join(scrub(display_amount)))|%(join(scrub(display_total)))\n")
 REG_FMT = ('%(format_date(date, "%Y-%m-%d"))|%(account)|%(verif_rational(amount))|%(verif_rational(total))|'
            '%(amount ? (amount / amount * 1234567) : "z")\n')
 _ANN = re.compile(r"^(.*?)(?: [\{\[\(].*)?$")
@@ -231,6 +233,25 @@ def parse_value(s):
         q, prec, keep, comm = p.split(":", 3)
         n, dd = q.split("/")
         d[comm] = d.get(comm, Fraction(0)) + Fraction(int(n), int(dd))
+    return d
+
+
+def parse_precs(s):
+    """verif_rational text -> dict base commodity -> largest precision counter among its nonzero components."""
+    tag, _, rest = s.partition(":")
+    if tag == "A":
+        parts = [rest]
+    elif tag == "B":
+        parts = rest.split(";") if rest else []
+    else:
+        return {}
+    d = {}
+    for p in parts:
+        q, prec, keep, comm = p.split(":", 3)
+        if q.split("/")[0] in ("0", "-0"):
+            continue
+        b = base_comm(comm)
+        d[b] = max(d.get(b, 0), int(prec))
     return d
 
 
@@ -313,7 +334,7 @@ def err_kind(stderr):
 
 class Obs:
     """canonical observation of one presentation of a journal on the binary."""
-    __slots__ = ("err", "errs", "bal", "rawbal", "groups", "rows", "styles", "stderr", "cmdfail")
+    __slots__ = ("err", "errs", "bal", "rawbal", "disp", "groups", "rows", "styles", "stderr", "cmdfail")
 
     def key(self):
         return (self.err, self.bal, self.groups, self.styles)
@@ -337,7 +358,7 @@ def observe(files, main):
     o.cmdfail = None
     o.err = None
     o.errs = ()
-    o.bal = o.rawbal = o.groups = o.rows = o.styles = None
+    o.bal = o.rawbal = o.disp = o.groups = o.rows = o.styles = None
     if rc1 != 0 or rc2 != 0:
         k1, k2 = err_kinds(err1 or ""), err_kinds(err2 or "")
         o.err = (k1 or k2 or ["rc=%s/%s" % (rc1, rc2)])[0]     # what the model, which stops at the first error, must answer
@@ -347,11 +368,12 @@ def observe(files, main):
         return o
     bal = {}
     raw = {}
+    disp = {}
     for line in out1.split("\n"):
         if not line:
             continue
         f = line.split("|")
-        if len(f) != 3:
+        if len(f) != 5:
             o.cmdfail = "unparsable bal line %r" % line
             continue
         own, tot = parse_value(f[1]), parse_value(f[2])
@@ -360,8 +382,11 @@ def observe(files, main):
             continue
         bal[f[0]] = (fz(by_base(own)), fz(by_base(tot)))
         raw[f[0]] = (fz({c: q for c, q in own.items() if q != 0}), fz({c: q for c, q in tot.items() if q != 0}))
+        # what the user sees: the printed own amount and total, and the precision counters behind them
+        disp[f[0]] = (tuple(sorted(parse_precs(f[1]).items())), tuple(sorted(parse_precs(f[2]).items())), f[3], f[4])
     o.bal = tuple(sorted(bal.items()))
     o.rawbal = tuple(sorted(raw.items()))
+    o.disp = tuple(sorted(disp.items()))
     rows = []
     styles = {}
     for line in out2.split("\n"):
@@ -379,6 +404,8 @@ def observe(files, main):
         b = base_comm(c)
         rows.append((f[0], f[1], b, str(q), fz(by_base(tot))))
         if f[4] != "z":
+            if b == "":
+                continue      # an amount without commodity has no commodity style; it prints at its own precision counter
             st = style_of_sample(f[4], b)
             old = styles.get(b)
             if old is not None and old != st:
@@ -412,16 +439,22 @@ def parse_model(ans):
         return m
     m["flags"] = f[1]
     bal = {}
+    precs = {}
     for rec in (f[2].split(";") if f[2] else []):
         a, own, tot = rec.split("|")
         def comps(s):
             d = {}
+            pr = {}
             for c in (s.split(",") if s else []):
-                k, q = c.rsplit("~", 1)
+                k, q, prec = c.rsplit("~", 2)
                 d[k] = Fraction(q)
-            return fz(d)
-        bal[a] = (comps(own), comps(tot))
+                pr[k] = int(prec)
+            return fz(d), tuple(sorted(pr.items()))
+        (o1, p1), (o2, p2) = comps(own), comps(tot)
+        bal[a] = (o1, o2)
+        precs[a] = (p1, p2)
     m["bal"] = bal
+    m["precs"] = precs
     rows = []
     for rec in (f[3].split(";") if f[3] else []):
         dt, a, cq = rec.split("|")
@@ -462,6 +495,15 @@ def model_vs_binary(m, o):
                 tot[c] = tot.get(c, Fraction(0)) + Fraction(q)
         if fz({c: q for c, q in tot.items() if q != 0}) != obal[""][1]:
             return "grand total: model %r ledger %r" % (fz(tot), obal[""][1])
+    # precision counters of the accumulated balances (what commodity-less totals are displayed with).  Accounts that
+    # received a zero-amount posting are left out: value_t += counts a zero operand while the sum is still a single
+    # AMOUNT, balance_t += skips it (the model keeps balances as balance_t throughout).
+    zero_accts = {r[1] for r in o.rows if Fraction(r[3]) == 0}
+    for a, (pown, ptot, _, _) in dict(o.disp).items():
+        if not a or a not in m["precs"] or any(accountish == a or accountish.startswith(a + ":") for accountish in zero_accts):
+            continue
+        if (pown, ptot) != m["precs"][a]:
+            return "precision counters of account %r: model %r ledger %r" % (a, m["precs"][a], (pown, ptot))
     orows = tuple(r[:4] for r in o.rows)
     if orows != m["rows"]:
         for i, (x, y) in enumerate(itertools.zip_longest(m["rows"], orows)):
@@ -503,6 +545,11 @@ def compare_obs(a, b, kind, elided_accounts):
     # lot components (`$ {2.1085... EUR} [date]`) are not compared: the TEXT of a computed lot price shows the
     # internal precision counter of the division (amount.cc operator/=), which is clamped by the precision the
     # price commodity had when the transaction was finalized; the price itself is the same exact rational.
+    if a.disp != b.disp and a.bal == b.bal:
+        da, db = dict(a.disp), dict(b.disp)
+        diff = [(k, da.get(k), db.get(k)) for k in sorted(set(da) | set(db)) if da.get(k) != db.get(k)]
+        out.append(("C08:display:%s" % kind, "same exact balances but displayed differently (printed amount/total or "
+                    "precision counter): %r" % (diff[:2],)))
     if a.styles != b.styles:
         out.append(("C08:style:%s" % kind, "commodity precision/style differs: base %r variant %r" % (a.styles, b.styles)))
     if a.groups != b.groups:
@@ -571,6 +618,33 @@ def exchange_xact(rng, day):
     return {"date": day, "aux": None, "state": 0, "code": "", "payee": "exchange", "note": "", "posts": posts}
 
 
+NOCOMM = jgen.Commodity("", 2)
+PLAIN_ACCTS = ["Units:Stock", "Units:Stock:Shelf", "Units:Sold", "Assets:Cash"]
+
+
+def plain_xact(rng, day):
+    """amounts WITHOUT commodity, written with different numbers of decimals, at least two on one account."""
+    acct = rng.choice(PLAIN_ACCTS)
+    n = rng.randint(2, 4)
+    posts = []
+    tot = Fraction(0)
+    decs = rng.sample([0, 1, 2, 3, 4, 6], n)
+    for i in range(n):
+        dec = decs[i]
+        q = Fraction(rng.randint(1, 99999), 10 ** dec) * rng.choice([1, 1, -1])
+        tot += q
+        posts.append({"account": acct if i < 2 else rng.choice(PLAIN_ACCTS), "kind": "real", "state": 0,
+                      "amount": jgen.amt(q, NOCOMM, dec), "cost": None, "assert": None, "note": ""})
+    other = rng.choice([a for a in PLAIN_ACCTS if a != acct])
+    if rng.random() < 0.5 or tot == 0:
+        posts.append({"account": other, "kind": "real", "state": 0, "amount": None, "cost": None, "assert": None, "note": ""})
+    else:
+        posts.append({"account": other, "kind": "real", "state": 0, "amount": jgen.amt(-tot, NOCOMM, max(decs)), "cost": None,
+                      "assert": None, "note": ""})
+    rng.shuffle(posts)
+    return {"date": day, "aux": None, "state": 0, "code": "", "payee": "plain", "note": "", "posts": posts}
+
+
 def gen_xacts(rng, n, comms=None, same_date=False, n_days=40, **kw):
     comms = comms or rng.sample(COMMS, rng.randint(1, 4))
     g = jgen.Gen(rng, comms=comms, n_days=n_days, p_elide=kw.pop("p_elide", 0.5), **kw)
@@ -578,6 +652,8 @@ def gen_xacts(rng, n, comms=None, same_date=False, n_days=40, **kw):
     for i in range(n):
         if rng.random() < 0.08 and len(comms) >= 1:
             x = exchange_xact(rng, g.kw["start"] + rng.randint(0, n_days))
+        elif rng.random() < 0.15:
+            x = plain_xact(rng, g.kw["start"] + rng.randint(0, n_days))
         else:
             x = g.xact()
         if same_date:
@@ -937,6 +1013,14 @@ def boundary_cases(rng):
     cases.append(Case("boundary:virtual", [xact(D0, [post("A", 2, eur), post("B", -2, eur), post("V", 9, eur, kind="virtual")]),
                                            xact(D0 + 3, [post("A", 2, eur, kind="bvirtual"), post("B", None, eur, kind="bvirtual")])]))
     # a single transaction
+    # amounts without commodity: the displayed precision is the largest number of decimals seen, whichever came first
+    nc = NOCOMM
+    cases.append(Case("boundary:no-commodity-decimals", [
+        xact(D0, [post("A", F(3, 2), nc, 1), post("B", F(-3, 2), nc, 1)]),
+        xact(D0 + 1, [post("A", F(1, 4), nc, 2), post("B", None, nc)]),
+        xact(D0 + 1, [post("A", 2, nc, 0), post("A:sub", F(1, 8), nc, 3), post("B", None, nc)])]))
+    cases.append(Case("boundary:no-commodity-one-xact", [
+        xact(D0, [post("A", F(3, 2), nc, 1), post("A", F(1, 4), nc, 2), post("B", F(-7, 4), nc, 2)])]))
     cases.append(Case("boundary:one-xact", [xact(D0, [post("A", 1, eur), post("C", 5, usd), post("B", None, eur)])]))
     return cases
 
@@ -996,7 +1080,7 @@ def run(tier, seed):
                 "real temp tree; every presentation is one evaluation; a case is non-trivial when it is in the order-free fragment, has "
                 ">=2 transactions and is accepted; distinct by its canonical balances")
     ctx.assumptions = ["commodities are compared per base symbol (lot annotations created by costs are not modelled)",
-                       "the internal precision counter of amounts is not compared (only exact quantities and display precision)",
+                       "precision counters are compared on accumulated balances (own/family) and across presentations; lot price text is not",
                        "file names over [A-Za-z0-9_.]; --decimal-comma is not given",
                        "std::stable_sort is a stable sort; boost::filesystem path order on one directory is byte order of the file name"]
     if not ctx.prepare():
